@@ -21,27 +21,61 @@ Ltac side := repeat split; auto.
 Lemma nifti_type_same t : In t torch_types -> @nifti_r_type t = Some t.
 Proof. intro H. in_types H; vm_compute; reflexivity. Qed.
 
+(* the NIfTI reader inverts the LPS -> RAS affine of any file whose layout it accepts: 2-D and 3-D, any channel count,
+   any size, non-zero spacing *)
+Lemma read_nifti_ras (L : nlayout) (D : nat) (x : image) :
+  D = 2%nat \/ D = 3%nat -> wf_image D x -> In (i_type x) torch_types ->
+  Forall (fun s => s <> 0) (i_spacing x) ->
+  nifti_r_status L D (i_chan x) = ROk ->
+  read_nifti (mkNfile L D (i_size x) (i_chan x) (i_spacing x ++ repeat 1 (3 - D))
+                      (lps_to_ras_affine D (i_origin x) (i_spacing x) (i_dir x)) (i_type x) (i_data x)) = Some x.
+Proof.
+  intros [-> | ->] H Ht Hs0 Hst.
+  - explode2 x H. cbn [i_type i_chan i_size i_origin i_spacing i_dir i_data] in *.
+    inv_forall Hs0.
+    unfold read_nifti. cbn [n_layout n_ndim n_sizes n_chan n_pixdim n_affine n_type n_buf].
+    rewrite Hst. cbn [rstatus_ok negb].
+    rewrite (nifti_type_same _ Ht). cbn.
+    do 2 f_equal; list_eq; try reflexivity; field; side.
+  - explode3 x H. cbn [i_type i_chan i_size i_origin i_spacing i_dir i_data] in *.
+    inv_forall Hs0.
+    unfold read_nifti. cbn [n_layout n_ndim n_sizes n_chan n_pixdim n_affine n_type n_buf].
+    rewrite Hst. cbn [rstatus_ok negb].
+    rewrite (nifti_type_same _ Ht). cbn.
+    do 2 f_equal; list_eq; try reflexivity; field; side.
+Qed.
+
+(* files in ITK's layouts (scalar; vector with dim[5] = C) are read back exactly whenever the reader accepts the layout *)
+Lemma nifti_read_itk_cond (D : nat) (x : image) :
+  D = 2%nat \/ D = 3%nat -> wf_image D x -> In (i_type x) torch_types ->
+  Forall (fun s => s <> 0) (i_spacing x) ->
+  nifti_r_status (if Nat.eqb (i_chan x) 1 then LScalar else LItkVector) D (i_chan x) = ROk ->
+  read_nifti (itk_write_nii D x) = Some x.
+Proof. intros HD H Ht Hs Hst. unfold itk_write_nii. apply read_nifti_ras; assumption. Qed.
+
 (* scalar NIfTI files as ITK writes them are read back exactly (2-D and 3-D, any size, non-zero spacing) *)
 Lemma nifti_read_itk_scalar (D : nat) (x : image) :
   D = 2%nat \/ D = 3%nat -> wf_image D x -> i_chan x = 1%nat -> In (i_type x) torch_types ->
   Forall (fun s => s <> 0) (i_spacing x) ->
   read_nifti (itk_write_nii D x) = Some x.
 Proof.
-  intros [-> | ->] H HC1 Ht Hs0.
-  - explode2 x H. cbn [i_type i_chan i_size i_origin i_spacing i_dir i_data] in *. subst C.
-    inv_forall Hs0.
-    unfold read_nifti, itk_write_nii. cbn [n_layout n_ndim n_sizes n_chan n_pixdim n_affine n_type n_buf
-      i_type i_chan i_size i_origin i_spacing i_dir i_data Nat.eqb].
-    replace (nifti_r_status LScalar 2 1) with ROk by (vm_compute; reflexivity). cbn [rstatus_ok negb].
-    rewrite (nifti_type_same _ Ht). cbn.
-    do 2 f_equal; list_eq; try reflexivity; field; side.
-  - explode3 x H. cbn [i_type i_chan i_size i_origin i_spacing i_dir i_data] in *. subst C.
-    inv_forall Hs0.
-    unfold read_nifti, itk_write_nii. cbn [n_layout n_ndim n_sizes n_chan n_pixdim n_affine n_type n_buf
-      i_type i_chan i_size i_origin i_spacing i_dir i_data Nat.eqb].
-    replace (nifti_r_status LScalar 3 1) with ROk by (vm_compute; reflexivity). cbn [rstatus_ok negb].
-    rewrite (nifti_type_same _ Ht). cbn.
-    do 2 f_equal; list_eq; try reflexivity; field; side.
+  intros HD H HC1 Ht Hs0. apply nifti_read_itk_cond; auto. rewrite HC1. cbn [Nat.eqb].
+  destruct HD as [-> | ->]; vm_compute; reflexivity.
+Qed.
+
+(* native round trip, conditional form: whenever the writer produces a file (status, modelled layout, the RAS affine of
+   the grid) and the reader accepts that layout, the image comes back exactly *)
+Lemma nifti_roundtrip_cond (L : nlayout) (D : nat) (x : image) :
+  D = 2%nat \/ D = 3%nat -> wf_image D x -> In (i_type x) torch_types ->
+  Forall (fun s => s <> 0) (i_spacing x) ->
+  nifti_w_status D (i_chan x) = ROk -> nifti_w_layout D (i_chan x) = Some L ->
+  sel D (gen_nifti_w_affine_2 (i_origin x) (i_spacing x) (i_dir x)) (gen_nifti_w_affine_3 (i_origin x) (i_spacing x) (i_dir x)) None
+    = Some (lps_to_ras_affine D (i_origin x) (i_spacing x) (i_dir x)) ->
+  nifti_r_status L D (i_chan x) = ROk ->
+  exists f, write_nifti D x = Some f /\ read_nifti f = Some x.
+Proof.
+  intros HD H Ht Hs Hw Hl Ha Hr. unfold write_nifti. rewrite Hw. cbn [rstatus_ok negb]. rewrite Ha, Hl.
+  eexists; split; [reflexivity | apply read_nifti_ras; assumption].
 Qed.
 
 (* vector-valued NIfTI files in ITK's layout are rejected by the reader of the tree as it is *)
